@@ -25,7 +25,7 @@ func init() {
 		Assumptions: []string{
 			"external functions are deterministic functions of (symbol, per-session call index, input)",
 			"comparison stops at the first request that stops or fails (Exec after stop is documented as undefined)",
-			"engine.WithFirst is not configured here: the pre-VM function runs once per engine instance by design, so its invocations (and the last-value it leaves behind) differ between a long-lived engine and an engine per request; C06, C08 and C20 explore it",
+			"engine.WithFirst is configured in a fifth of the runs with a function that only returns a constant: it runs once per engine instance by design, so its invocation count differs between the twins (and its result is empty when a cache capacity is configured, because it needs capacity while it runs); nothing the client sees may differ",
 		},
 		Real:       append(append([]string{}, realAll...), "db/fs (compiled against the simulated os)", "db/postgres", "engine.Loop (fourth twin)"),
 		Stub:       append(append([]string{}, stubAll...), "OS filesystem (simfs)", "Postgres server (pgfake)", "client connection of engine.Loop (chunked reader, recording writer)"),
@@ -52,6 +52,10 @@ func runC07(c *core.Ctx) *core.Outcome {
 	cfg.Backend = t.Weighted(3, 2, 1, 2)
 	cfg.SetSession = t.Chance(1, 2)
 	cfg.ResetOnEmpty = t.Chance(1, 6)
+	cfg.First = t.Chance(1, 5) // a benign pre-VM function: how often it runs differs between the twins, what the client sees must not
+	if cfg.First && cfg.CacheSize > 0 {
+		cfg.FirstContent = "-" // its result needs cache capacity while it runs; an empty result keeps that out of the comparison
+	}
 	cfg.FinishAlways = t.Chance(1, 2) // gateway policy: save the session also after a request whose page could not be delivered
 	var a *app.App
 	exs := examples.All()
